@@ -43,6 +43,8 @@ ASSUMPTIONS = [
     "passes the implementation's float value",
     "floats are converted exactly (Fraction); model values compared with rel. tolerance 1e-9 (ep) / "
     "1e-12 (mass, signal); cases where |d^2-1| < 1e-6 for some pair (KD-tree slack 1-1e-7) or where a "
+    "an ep cell whose denominator raw_mass - N*black_level vanishes to within 1e-9 relative is decided "
+    "by float rounding in the code (inf) and is not compared with the exact model",
     "mass/size is within 1e-9 of the threshold without being equal are counted borderline and only "
     "the direct oracle is applied",
     "'inside the image' is checked as -0.5 <= x_k <= shape_k - 0.5; 'ep positive or NaN' as never negative",
@@ -571,10 +573,16 @@ def feat_line(ref, pc, iso_d):
     return " ; ".join(out), extra
 
 
+_DEN = {}     # (black_level, N_binary_mask) of the case being compared: the ep denominator is
+              # raw_mass - N*black; when it is 0 to within float rounding the code divides by a
+              # rounded 0 (-> inf) where the exact model sees a tiny non-zero number: borderline
+
+
 def correspondence(ctx, res, inp, pc, epcols, ep_scalar, sepv, cm, npx, calls, cleaned, ref, noise, scale):
     iso_d = len(set(inp["diameter"])) == 1
     feats, extra = feat_line(ref, pc, iso_d)
     black, sd = (noise if noise is not None else (float("nan"), float("nan")))
+    _DEN["v"] = (black, npx)
     hdr = "sep=%s scale=%s black=%s noise=%s npx=%d iso=%d nsz=%s cm=%s" % (
         ",".join(fnum(s) for s in sepv), fnum(scale), fnum(black), fnum(sd), npx, 1 if ep_scalar else 0,
         ",".join(fnum(v) for v in inp["noise_size"]), ",".join(fnum(v) for v in cm))
@@ -692,6 +700,12 @@ def compare_call(res, inp, pc, epcols, ref, ndd, mm, ms, tn, R, m, resp):
     for i, j in zip(oi, oj):
         for k, c in enumerate(cols):
             tol = 1e-9 if c in epcols else 1e-12
+            if c in epcols and "v" in _DEN and "raw_mass" in cols:
+                bl, nn = _DEN["v"]
+                rm = Rv[j, cols.index("raw_mass")]
+                if bl == bl and abs(rm - nn * bl) <= 1e-9 * max(1.0, abs(rm)):
+                    res.stat("ep_cells_denominator_borderline")
+                    continue
             if c not in exp[i]:
                 brk("model-column", "column %s unknown to the model" % c)
                 return
